@@ -215,3 +215,10 @@ func init() {
 	addMutant(Mutant{Name: "c26-validate-missing-opts", Property: "C26", File: "gogen/gogen.go",
 		Old: "func (t *{{ .StructName }}) ΛValidate(opts ...ygot.ValidationOption) error {", New: "func (t *{{ .StructName }}) ΛValidate() error {\n\tvar opts []ygot.ValidationOption", Expect: "compiles"})
 }
+
+func init() {
+	addMutant(Mutant{Name: "c22-float-key-exponent", Property: "C22", File: "ygot/render.go",
+		Old: "\t\treturn strconv.FormatFloat(kv.Float(), 'f', -1, 64), nil", New: "\t\treturn fmt.Sprintf(\"%g\", v), nil", Expect: "KeyValueAsString:reflect.Float64"})
+	addMutant(Mutant{Name: "c16-float-key-exponent", Property: "C16", File: "ygot/render.go",
+		Old: "\t\treturn strconv.FormatFloat(kv.Float(), 'f', -1, 64), nil", New: "\t\treturn fmt.Sprintf(\"%g\", v), nil", Expect: "KeyValueAsString:reflect.Float64"})
+}
